@@ -21,6 +21,7 @@ None == "none"
 StrNode(s)  == [t |-> "str", s |-> s]
 RawNode(v)  == [t |-> "raw", v |-> v]        \* number / true / false / null lexeme
 RawSym(s)   == [t |-> "rawsym", s |-> s]  \* the same, spelled with symbols
+SpecialNode(v) == [t |-> "special", v |-> v]   \* "inf" | "neginf" | "nan": spelled as the file format spells it (YAML .inf, JSON5 Infinity)
 NullNode    == RawNode("null")
 MapNode(e)  == [t |-> "map", e |-> e]        \* e : sequence of <<key string, node>>
 SeqNode(e)  == [t |-> "seq", e |-> e]
